@@ -158,3 +158,18 @@ def queries():
     except Exception:
         pass
     return qs
+
+
+# ---- cross-included by the main session: "every byte written by one application is read by the other ... until an orderly
+# close" also rests on the engine's record-sent / close steps (anchor src/ssl/ssl_engine.c): the handshake processor is
+# resumed after a completed record whenever application data is not flowing (application_data 0 or 2), so that a pending
+# close_notify is written (seeded change C01f).  Decided by the C06 steps sendrec_ack, close and flush.
+_c01_queries3 = queries
+def queries():
+    qs = _c01_queries3()
+    try:
+        import C06
+        qs = qs + [q for q in C06.queries() if q.tier == "quick" and any(q.name.startswith("step-" + k) for k in ("sendrec_ack", "close-", "flush"))]
+    except Exception:
+        pass
+    return qs
